@@ -14,7 +14,7 @@
 (* operation transition is exported as one JSON case by the                *)
 (* ACTION_CONSTRAINT Emit and replayed against the real library.           *)
 (***************************************************************************)
-EXTENDS AkBroadcast, Json
+EXTENDS AkBroadcast, Buffers, Json
 
 CONSTANTS
   LeafSet,      \* set of leaf layouts to start from
@@ -224,6 +224,11 @@ SetFieldOp ==
         \/ \E p \in 0..3 : emit([where |-> p], [k \in 1..Len(recs) |-> ins(recs[k], what[k], p)])
   /\ cur' = Sink /\ aux' = NoLayout /\ phase' = "done"
 
+\* C16: buffers / pickle / NumPy / Arrow conversions keep the value (the replayer runs every converter on the layout)
+BuffersOp ==
+  /\ OpReady("buffers")
+  /\ Case("buffers", [none |-> 0], Ok(V))
+
 \* C04: ufuncs / operators / broadcast_arrays on one or two arrays and scalars
 UfuncOp ==
   /\ Building /\ "ufunc" \in OpSet /\ Valid(cur)
@@ -245,7 +250,7 @@ UfuncOp ==
              \/ emit("neg", "cur", <<lay(cur)>>)
   /\ cur' = Sink /\ aux' = NoLayout /\ phase' = "done"
 
-Operate == UfuncOp \/ SetFieldOp \/ SortOp \/ ConcatOp \/ SameValueOp \/ ReduceOp \/ Validity \/ ToListOp \/ SliceOp \/ NumOp \/ LocalIndexOp \/ FlattenOp \/ PadOp \/ CombOp
+Operate == BuffersOp \/ UfuncOp \/ SetFieldOp \/ SortOp \/ ConcatOp \/ SameValueOp \/ ReduceOp \/ Validity \/ ToListOp \/ SliceOp \/ NumOp \/ LocalIndexOp \/ FlattenOp \/ PadOp \/ CombOp
 
 Next == Build \/ Operate
 Spec == Init /\ [][Next]_vars
@@ -255,6 +260,9 @@ Spec == Init /\ [][Next]_vars
 Refines == (phase = "build" /\ Valid(cur)) => Len(ToListS(cur)) = LLen(cur)
 \* closure of the constructors in valid-only mode
 Closed == (phase = "build" /\ ValidOnly) => Valid(cur)
+
+\* C16 at design level: the lengths from_buffers recomputes from the index buffers lose nothing reachable
+BuffersInv == (phase = "build" /\ Valid(cur)) => BuffersLossless(cur)
 
 \* export
 Emit == (EmitOn /\ last'.act \notin {"build", "init"}) => PrintT(<<"CASE", ToJson(last')>>)
